@@ -301,3 +301,95 @@ def s5(ctx):
     obs.append(ctx.ob(ok, wr.qualname, wr.where, "WSGI helper redirects well-known paths", "302 Location: dav_root when path in WELLKNOWN_DAV_PATHS",
                       "WellknownRedirector no longer answers paths in WELLKNOWN_DAV_PATHS with a redirect to the DAV root"))
     return obs
+
+
+def _prefix_kind(ctx, fi, cfg, du, node, e, depth=0):
+    """P = route prefix (SCRIPT_NAME), A = absolute path, R = relative path, PA = prefix + path, ? = unknown."""
+    if depth > 5:
+        return "?"
+    if isinstance(e, ast.Subscript) and "SCRIPT_NAME" in src(e.slice):
+        return "P"
+    if isinstance(e, ast.Call):
+        d = dotted(e.func) or ""
+        if d.endswith("path_from_environ"):
+            return "A"
+        if d in ("posixpath.join", "os.path.join", "urllib.parse.urljoin") and len(e.args) == 2:
+            a, b = (_prefix_kind(ctx, fi, cfg, du, node, x, depth + 1) for x in e.args)
+            if a == "P" and b == "A":
+                return "A"       # join discards the first component when the second is absolute
+            if a == "P" and b == "R":
+                return "PA"
+            return "?"
+        if isinstance(e.func, ast.Attribute) and e.func.attr in ("lstrip",) and e.args and ctx.P.try_fold(fi.module, e.args[0]) == "/":
+            k = _prefix_kind(ctx, fi, cfg, du, node, e.func.value, depth + 1)
+            return "R" if k == "A" else k
+        if isinstance(e.func, ast.Attribute) and e.func.attr in ("rstrip",):
+            return _prefix_kind(ctx, fi, cfg, du, node, e.func.value, depth + 1)
+        return "?"
+    if isinstance(e, ast.BinOp) and isinstance(e.op, ast.Add):
+        a = _prefix_kind(ctx, fi, cfg, du, node, e.left, depth + 1)
+        b = _prefix_kind(ctx, fi, cfg, du, node, e.right, depth + 1)
+        if a == "P" and b in ("A", "R"):
+            return "PA"
+        if a == "PA" and b in ("A", "R"):
+            return "PA"
+        return "?"
+    if isinstance(e, ast.Name):
+        ds = du.reaching(node, e.id)
+        kinds = {_prefix_kind(ctx, fi, cfg, du, d.node, d.value, depth + 1) for d in ds if d.value is not None and d.node is not None}
+        return kinds.pop() if len(kinds) == 1 else "?"
+    return "?"
+
+
+@rule("C18", "S6", floor=1, kind="S",
+      desc="the WSGI front end keeps the route prefix in request.path (the base of every href the server returns)")
+def s6(ctx):
+    fi = ctx.own_method("xandikos.webdav.WSGIRequest", "__init__")
+    cfg = ctx.cfg(fi)
+    du = DefUse(cfg)
+    sets = [n for n in cfg.stmt_nodes() if n.kind == "stmt" and isinstance(n.ast, ast.Assign) and any(dotted(t) == "self.path" for t in n.ast.targets)]
+    if not sets:
+        raise AnalysisError("WSGIRequest.__init__ no longer assigns self.path")
+    obs = []
+    for n in sets:
+        k = _prefix_kind(ctx, fi, cfg, du, n, n.ast.value)
+        if k == "?":
+            raise AnalysisError("WSGIRequest.path is built by an unmodelled expression: %s" % src(n.ast.value))
+        obs.append(ctx.ob(k == "PA", fi.qualname, where(fi, n), "request.path = SCRIPT_NAME + decoded PATH_INFO", "prefix kept",
+                          "`%s` loses the route prefix (PATH_INFO is absolute, and a path join discards its first component when the second is "
+                          "absolute): under a non-root mount every href derived from request.path (home sets, principal-URL, member hrefs) misses the "
+                          "prefix and discovery leads nowhere" % src(n.ast.value)))
+    return obs
+
+
+@rule("C18", "S7", floor=2, kind="S",
+      desc="creating a store refuses an existing directory: Repo.init* runs only after os.mkdir (or makedirs without "
+           "exist_ok) of the same path succeeded, so a restart can never re-initialise existing data")
+def s7(ctx):
+    obs = []
+    for cq in ("xandikos.store.git.TreeGitStore", "xandikos.store.git.BareGitStore", "xandikos.store.vdir.VdirStore"):
+        f = ctx.own_method(cq, "create")
+        cfg = ctx.cfg(f)
+        inits = [n for n in cfg.stmt_nodes() for c in n.calls() if (dotted(c.func) or "").endswith(("Repo.init", "Repo.init_bare")) or dotted(c.func) == "cls"]
+        if not inits:
+            raise AnalysisError("%s.create: store construction not found" % cq)
+        mk = []
+        soft = []
+        for n in cfg.stmt_nodes():
+            for c in n.calls():
+                d = dotted(c.func) or ""
+                if d == "os.mkdir":
+                    mk.append(n)
+                elif d == "os.makedirs":
+                    eo = [k for k in c.keywords if k.arg == "exist_ok"]
+                    if eo and not (isinstance(eo[0].value, ast.Constant) and eo[0].value.value is False):
+                        soft.append(n)
+                    else:
+                        mk.append(n)
+        ok = bool(mk) and all(cfg.normal_completion_dominates(mk, i) for i in inits)
+        obs.append(ctx.ob(ok, f.qualname, f.where, "creation fails on an existing directory",
+                          "os.mkdir(path) completes before the repository is initialised",
+                          "%s.create initialises the repository without a directory creation that fails when the path exists%s: the "
+                          "FileExistsError that start-up relies on to skip existing collections never comes, and an existing collection is re-initialised"
+                          % (cq.split(".")[-1], " (os.makedirs(..., exist_ok=True))" if soft else "")))
+    return obs
